@@ -123,6 +123,24 @@ def run_program(rng):
                     if rng.random() < 0.7:
                         record(sid)
                     check(sid, "after a child")
+                if rng.random() < 0.3:
+                    # a scope object made here (its metrics nest under this scope) but entered inside another block:
+                    # after it is left, records land in the block it was entered in - the innermost *active* one
+                    psid, isid = counter[0], counter[0] + 1
+                    counter[0] += 2
+                    model[psid], model[isid], children[psid], children[isid] = {}, {}, [], []
+                    children[sid].append(psid)
+                    prepared = ctx.scope(f"s{psid}")
+                    children[sid].append(isid)
+                    with ctx.scope(f"s{isid}"):
+                        record(isid)
+                        with prepared:
+                            record(psid)
+                            check(psid, "inside a prepared scope")
+                        record(isid)
+                        check(isid, "after a prepared scope was left")
+                    record(sid)
+                    check(sid, "after the block around a prepared scope")
             check_merged(sid, "at the end of the block")
     try:
         ctx.record(M1(v=1))           # outside any scope: must not raise
